@@ -474,7 +474,7 @@ def summarize(prop, tier, cases, results, t0, outcome, matcher, level, rule, ass
                 evals += 1
         for i in res.get("ntr", []):
             e = evs[i - 1]
-            if e["ev"] not in EVAL_EVENTS.get(prop, ()):
+            if prop in ("C13", "C14") and e["ev"] not in EVAL_EVENTS.get(prop, ()):
                 continue
             arg = e.get("s", None)
             if arg is None and "list" in e:
